@@ -348,3 +348,11 @@ Fixpoint retime_from (s : stn) (k : nat) (plan : list step) : list step :=
                :: retime_from s (S k) r
   end.
 Definition retime (s : stn) (plan : list step) : list step := retime_from s 0 plan.
+
+(* the timings of the mockup action anchored at GLOBAL_END have a delay <= 0 (its end is at -1: they give negative
+   times, which _convert_to_stn skips) *)
+Definition base_timings (st : step) : list timing :=
+  st_effs st ++ flat_map (fun iv => [iv_lo iv; iv_hi iv]) (st_conds st).
+Definition from_start (tm : timing) : bool := match tg_anchor tm with FromStart => true | FromEnd => false end.
+Definition mock_end_ok (mock : step) : bool :=
+  forallb (fun tm => from_start tm || Qle_bool (tg_delay tm) 0) (base_timings mock).
